@@ -75,8 +75,13 @@ def gen_case(rng, tier, idx):
             if rng.random() < 0.15:
                 text += " n1.2.3.4." + cfg["fqdn"] + " 10-1-2-3." + (T.domain_of(cfg["fqdn"]) or "x")
             lines.append(text)
-    return {"cfg": cfg, "lines": lines, "no_obfuscate": rng.sample(["hostname", "ip", "keyword", "mac", "password"], rng.choice([0, 0, 0, 1, 2])),
+    case = {"cfg": cfg, "lines": lines, "no_obfuscate": rng.sample(["hostname", "ip", "keyword", "mac", "password"], rng.choice([0, 0, 0, 1, 2])),
             "no_redact": rng.random() < 0.1}
+    if rng.random() < 0.3:
+        # a filterable spec: the allow-list (filter -> match budget) is part of the configuration; the collector
+        # hands the same dictionary object to every cleaning of that spec
+        case["allowlist"] = dict((f, rng.choice([1, 1, 2, 3, 10000])) for f in rng.sample(["~", "lorem", "e", "1", "a", "tcp", " "], rng.randint(1, 3)))
+    return case
 
 
 # --------------------------------------------------------------------------
@@ -113,8 +118,18 @@ def child_main(path):
             del order[:]
             res = {"n": n}
             try:
-                r = cleaner.clean_content(list(c["lines"]), no_obfuscate=list(c["no_obfuscate"]), no_redact=c["no_redact"])
+                kw = {}
+                if c.get("allowlist") is not None:
+                    kw["allowlist"] = shared_allowlist = dict(c["allowlist"])
+                r = cleaner.clean_content(list(c["lines"]), no_obfuscate=list(c["no_obfuscate"]), no_redact=c["no_redact"], **kw)
                 res["out"] = r
+                if kw:
+                    # same content, same configuration (the very same allow-list object), fresh cleaner
+                    seq_first = list(order)
+                    r2 = T.make_cleaner(c["cfg"]).clean_content(list(c["lines"]), no_obfuscate=list(c["no_obfuscate"]), no_redact=c["no_redact"], **kw)
+                    res["out_again"] = r2
+                    res["allowlist_after"] = shared_allowlist
+                    del order[len(seq_first):]
                 nonblank = [l for l in c["lines"] if l]
                 per_line = len(order) // len(nonblank) if nonblank else 0
                 # order in which the obfuscators were applied to the first processed non-blank line that survived them all
@@ -234,6 +249,14 @@ def run_shard(ctx):
                 if r.get(k) != ref.get(k):
                     ctx.violation("empty-result-behaviour-differs-between-hash-seeds", {"key": k, "values": [ref.get(k), r.get(k)]})
         out = ref["out"]
+        if "out_again" in ref:
+            ctx.count("repeated_cleanings_compared")
+            if ref["out_again"] != ref["out"]:
+                ctx.violation("same-content-and-configuration-cleaned-twice-differs", {"first": ref["out"][:6] if isinstance(ref["out"], list) else ref["out"],
+                                                                                        "second": ref["out_again"][:6] if isinstance(ref["out_again"], list) else ref["out_again"],
+                                                                                        "allowlist": c.get("allowlist"), "allowlist_after": ref.get("allowlist_after")})
+            elif ref.get("allowlist_after") != c.get("allowlist"):
+                ctx.violation("cleaning-changed-its-configuration", {"allowlist": c.get("allowlist"), "allowlist_after": ref.get("allowlist_after")})
         if isinstance(out, str):
             ctx.violation("clean-content-raised", {"error": out[:400]})
         else:
@@ -251,7 +274,7 @@ def run_shard(ctx):
                     ctx.violation("output-order-differs-from-input-order", {"line": o[:200]})
                 last = pos[found[0]]
             ctx.count("output_lines_checked", len(out))
-            if not any(l for l in out):
+            if not any(l for l in out) and c.get("allowlist") is None:
                 ctx.count("empty_results_checked")
                 if out != []:
                     ctx.violation("blank-only-result-not-dropped", {"result": out[:5]})
